@@ -233,7 +233,7 @@ func (j c14Job) input() any {
 	if j.Gen == nil {
 		return j.gCase
 	}
-	return map[string]any{"gen": j.Gen, "mode": j.Mode, "order": j.Order, "grace_ms": j.Grace, "hold_ms": j.HoldMs, "watch_close": j.Watch, "seed": j.Seed, "tag": j.Tag}
+	return map[string]any{"gen": j.Gen, "mode": j.Mode, "order": j.Order, "grace_ms": j.Grace, "hold_ms": j.HoldMs, "watch_close": j.Watch, "seed": j.Seed, "tag": j.Tag, "end_input": j.EndInput}
 }
 
 // c14Depths: the numbers of READ/WRITE requests between two CLOSEs that are tried: 0…20 and every power of two up
